@@ -1,17 +1,17 @@
-\* Documentation only (not run by the check): the bridge AS FOUND against the strict clauses.
-\* TLC reports NoSpontaneousEnd violated: Send(S, Bm1) under lim = "tiny", Attach, Read(s2t),
-\* Limit(s2t) = DevLimiterError -> the chunk is dropped and the copier ends with both ends open.
+\* Documentation only (not run by the check): a retry test on the error of a Write (Temporary() taken for "try
+\* again"), against NoBusyLoop.  TLC reports: Attach, Send by the other end, ErrorEnd(e, "plain", "tmp") - the copier
+\* that writes to the failed end offers its chunk again and again.
 CONSTANTS
   BUF = 3
   MaxSends = 1
   MaxSlow = 5
-  Lims = {"tiny"}
-  Classes = {"one", "Bm1", "B", "Bp1", "big"}
+  Lims = {"none"}
+  Classes = {"one"}
   Faults = FALSE
   Replace = FALSE
   ExtCloseOn = FALSE
   DevLimiter = TRUE
-  DevNilFwd = TRUE
+  DevNilFwd = FALSE
   DevStaleSrc = TRUE
   DevSleepLimiter = FALSE
   DevWriteLock = FALSE
@@ -21,10 +21,10 @@ CONSTANTS
   DevIdleSweep = FALSE
   DevFwdNoEof = FALSE
   SrcKinds = {"direct"}
-  ErrClasses = {"plain"}
+  ErrClasses = {"plain", "tmo", "tmp"}
   PollOn = FALSE
   RetryOn = {}
-  RetryWriteOn = {}
+  RetryWriteOn = {"tmp"}
   DevBufio = FALSE
   AttachKinds = {"local"}
   HoldOn = FALSE
@@ -33,5 +33,5 @@ CONSTANTS
 INIT Init
 NEXT Next
 VIEW view
-INVARIANTS TypeOK Prefix InOrder NoSpontaneousEnd Complete
+INVARIANTS TypeOK NoBusyLoop
 CHECK_DEADLOCK FALSE
